@@ -21,6 +21,7 @@ RULE = (
     "translation invariance on dyadic coordinates; Trend degrees 0..6 with unit coefficient vectors on an integer lattice (exact); "
     "CheckerBoard regions x amplitudes x default/explicit wavelengths; Linear/Cubic against directly built SciPy interpolators on all "
     "4..5-subsets of a general-position integer set under both rescale settings. Non-trivial: every case except pure refusals."
+    " Added axes: square non-symmetric Jacobians, one- and two-point queries, Trend routes, 'fitted' cases (force and data coordinates as arrays / permuted-index Series / lists / 2-D arrays: predict = sum_j force_j g), SciPy gridders with anisotropy 1 ... 3e4 and 1e-6 and with repeated stations."
 )
 ASSUMPTIONS = ["per-entry tolerance 64 eps (r + r^2 (1 + |ln r|)) for the biharmonic kernel (forward error bound of both implemented "
                "branches) and 64 eps (|(3-nu) ln r| + 4|1+nu| + 1) for the elastic kernels",
